@@ -272,6 +272,32 @@ func (s *Sched) Drive(choice func(step, n int) int, maxSteps int) (trace []strin
 			if s.AllDone() {
 				return trace, nil
 			}
+			// Nobody is parked and somebody looks blocked. "Blocked" is read off goroutine wait states, and an actor that merely
+			// waits for a helper goroutine (a query iterator feeding a channel, say) looks the same for as long as the helper does
+			// not get the CPU - on a loaded machine that can be many probes. Before calling it a deadlock, look again for a
+			// while: a real deadlock stays, a starved helper does not.
+			grace := time.Now().Add(3 * time.Second)
+			for time.Now().Before(grace) {
+				time.Sleep(2 * time.Millisecond)
+				for _, a := range s.actors {
+					if a.state == actorBlocked {
+						a.state = actorRunning
+					}
+				}
+				if err := s.Settle(); err != nil {
+					return trace, err
+				}
+				if len(s.Parked()) > 0 || s.AllDone() {
+					break
+				}
+			}
+			if len(s.Parked()) > 0 {
+				step--
+				continue
+			}
+			if s.AllDone() {
+				return trace, nil
+			}
 			return trace, fmt.Errorf("deadlock: actors %v blocked, none parked", s.Stuck())
 		}
 		i := choice(step, len(p))
